@@ -51,10 +51,13 @@ struct State {
     log: Vec<String>,
     horizon: usize,
     last_progress: Instant,
+    /// one condvar per logical thread (all used with `Exec::m`): a hand-off wakes only its target
+    cvs: Vec<Arc<Condvar>>,
 }
 
 pub struct Exec {
     m: Mutex<State>,
+    /// the thread that started the execution waits here for it to end
     cv: Condvar,
 }
 struct AbortExec;
@@ -152,6 +155,18 @@ impl Exec {
         g.running = opts[choice];
     }
 
+    /// Wakes whoever has to act next: the thread holding the baton, or everybody after an abort.
+    fn wake(&self, g: &State) {
+        if g.aborted.is_some() {
+            for c in &g.cvs {
+                c.notify_all();
+            }
+        } else if g.running != usize::MAX {
+            g.cvs[g.running].notify_all();
+        }
+        self.cv.notify_all();
+    }
+
     fn wait_for_baton(&self, me: usize) {
         let mut g = self.m.lock().unwrap();
         loop {
@@ -162,7 +177,8 @@ impl Exec {
             if g.running == me {
                 return;
             }
-            g = self.cv.wait(g).unwrap();
+            let cv = g.cvs[me].clone();
+            g = cv.wait(g).unwrap();
         }
     }
 }
@@ -177,7 +193,7 @@ pub fn point(label: &'static str) {
             return;
         }
         e.schedule(&mut g, me, label);
-        e.cv.notify_all();
+        e.wake(&g);
     }
     e.wait_for_baton(me);
 }
@@ -191,7 +207,7 @@ pub fn yield_now(label: &'static str) {
             return;
         }
         e.schedule_x(&mut g, me, label, true);
-        e.cv.notify_all();
+        e.wake(&g);
     }
     e.wait_for_baton(me);
 }
@@ -220,6 +236,7 @@ pub fn choose(label: &'static str, n: usize) -> usize {
             let c = if pos < g.prefix.len() { g.prefix[pos] } else { 0 };
             if c >= n {
                 g.aborted = Some(format!("replay-divergence: env decision {pos} wants {c} of {n}"));
+                e.wake(&g);
                 drop(g);
                 resume_unwind(Box::new(AbortExec));
             }
@@ -269,7 +286,7 @@ pub fn block_on<F: Future>(f: F) -> F::Output {
                 g.st[me] = St::Blocked;
             }
             e.schedule(&mut g, me, "pending");
-            e.cv.notify_all();
+            e.wake(&g);
         }
         e.wait_for_baton(me);
     }
@@ -291,7 +308,7 @@ impl<T> JoinHandle<T> {
                 g.st[me] = St::Blocked;
                 g.joiners[self.tid].push(me);
                 e.schedule(&mut g, me, "join");
-                e.cv.notify_all();
+                e.wake(&g);
             }
             e.wait_for_baton(me);
         }
@@ -331,7 +348,7 @@ fn start_thread<T: Send + 'static>(
                 e.schedule(&mut g, tid, "exit");
             }
             g.live_os_threads -= 1;
-            e.cv.notify_all();
+            e.wake(&g);
         })
         .expect("spawn OS thread");
     res
@@ -345,6 +362,7 @@ pub fn spawn<T: Send + 'static>(f: impl FnOnce() -> T + Send + 'static) -> JoinH
         g.st.push(St::Enabled);
         g.woken.push(false);
         g.joiners.push(vec![]);
+        g.cvs.push(Arc::new(Condvar::new()));
         g.st.len() - 1
     };
     let res = start_thread(e.clone(), tid, f);
@@ -395,6 +413,7 @@ pub fn run_one_h(prefix: &[usize], horizon: usize, body: impl FnOnce() + Send + 
             log: vec![],
             horizon,
             last_progress: Instant::now(),
+            cvs: vec![Arc::new(Condvar::new())],
         }),
         cv: Condvar::new(),
     });
